@@ -4,51 +4,101 @@
 // ---------------------------------------------------------------------------------------
 // leaves
 
-/// Targets tables: (default level or 255, [(target, level)])
-const TARGET_TABLES: [(usize, &[(&str, usize)]); 5] = [
-    (255, &[]),
-    (255, &[("app", 3)]),
-    (255, &[("app", 4), ("app::db", 5)]),
-    (2, &[("net", 5)]),
-    (4, &[("app::db", 0)]),
+/// Targets tables: (string handed to the parser or "", builder calls applied afterwards in
+/// order: (Some(target), level) = with_target, (None, level) = with_default).  Tables 5.. add
+/// the same key twice (more verbose / less verbose the second time; by string and by builder).
+const TARGET_TABLES: [(&str, &[(Option<&str>, usize)]); 13] = [
+    ("", &[]),
+    ("", &[(Some("app"), 3)]),
+    ("", &[(Some("app"), 4), (Some("app::db"), 5)]),
+    ("", &[(None, 2), (Some("net"), 5)]),
+    ("", &[(None, 4), (Some("app::db"), 0)]),
+    // same key twice
+    ("info,app=debug", &[(Some("app"), 5)]),
+    ("warn,app=trace", &[(Some("app"), 3)]),
+    ("", &[(None, 2), (None, 4)]),
+    ("", &[(None, 4), (None, 2)]),
+    ("warn,app=info,app=trace", &[]),
+    ("app=trace,app=warn,error", &[]),
+    ("warn,net=error,debug", &[]),
+    ("", &[(Some("net"), 1), (Some("net"), 5), (Some("app"), 4), (Some("app"), 2)]),
 ];
 fn mk_targets(i: usize) -> Targets {
-    let (d, ts) = TARGET_TABLES[i];
-    let mut t = Targets::new();
-    if d != 255 {
-        t = t.with_default(filter_of(d));
-    }
-    for (tg, l) in ts {
-        t = t.with_target(*tg, filter_of(*l));
+    let (parsed, ops) = TARGET_TABLES[i];
+    let mut t = if parsed.is_empty() {
+        Targets::new()
+    } else {
+        parsed.parse::<Targets>().unwrap_or_else(|e| panic!("HARNESS: Targets string {parsed:?} does not parse: {e}"))
+    };
+    for (tg, l) in ops {
+        t = match tg {
+            Some(tg) => t.with_target(*tg, filter_of(*l)),
+            None => t.with_default(filter_of(*l)),
+        };
     }
     t
 }
 fn targets_desc(i: usize) -> String {
-    let (d, ts) = TARGET_TABLES[i];
-    let mut parts: Vec<String> = ts.iter().map(|(t, l)| format!("{t}={}", LEVEL_NAMES[*l].to_lowercase())).collect();
-    if d != 255 {
-        parts.push(LEVEL_NAMES[d].to_lowercase());
+    let (parsed, ops) = TARGET_TABLES[i];
+    let mut s = if parsed.is_empty() { "Targets::new()".to_string() } else { format!("{parsed:?}.parse::<Targets>()") };
+    for (tg, l) in ops {
+        match tg {
+            Some(tg) => s.push_str(&format!(".with_target({tg:?}, {})", LEVEL_NAMES[*l])),
+            None => s.push_str(&format!(".with_default({})", LEVEL_NAMES[*l])),
+        }
     }
-    format!("targets({})", parts.join(","))
+    s
 }
 
-/// EnvFilter directive strings (static / span-scoped / field / value-matching)
-const ENVS: [&str; 12] = [
-    "info",
-    "app=debug",
-    "warn,app::db=trace",
-    "off",
-    "trace,app=off",
-    "[sp]=debug",
-    "[sp]=info,net=trace",
-    "app[sp]=trace",
-    "warn,[sp{f}]=debug",
-    "[{f=1}]=debug",
-    "[sp{f=1}]=trace,error",
-    "[other]=info,[sp]=trace",
+/// EnvFilter: (directive string, directives added afterwards with add_directive) — static /
+/// span-scoped / field / value-matching; entries 12.. add the same key twice
+const ENVS: [(&str, &[&str]); 20] = [
+    ("info", &[]),
+    ("app=debug", &[]),
+    ("warn,app::db=trace", &[]),
+    ("off", &[]),
+    ("trace,app=off", &[]),
+    ("[sp]=debug", &[]),
+    ("[sp]=info,net=trace", &[]),
+    ("app[sp]=trace", &[]),
+    ("warn,[sp{f}]=debug", &[]),
+    ("[{f=1}]=debug", &[]),
+    ("[sp{f=1}]=trace,error", &[]),
+    ("[other]=info,[sp]=trace", &[]),
+    // same key twice
+    ("warn,app=info,app=trace", &[]),
+    ("warn,app=debug,app=error", &[]),
+    ("[sp]=info,[sp]=trace", &[]),
+    ("[sp]=trace,[sp]=info,error", &[]),
+    ("warn,app=info", &["debug"]),
+    ("warn,app=trace", &["app=info"]),
+    ("[sp]=info", &["[sp]=trace"]),
+    ("[sp]=debug,error", &["[sp]=warn", "info", "error"]),
 ];
 fn mk_env(i: usize) -> EnvFilter {
-    EnvFilter::try_new(ENVS[i]).unwrap_or_else(|e| panic!("HARNESS: directive string {:?} does not parse: {e}", ENVS[i]))
+    let (base, added) = ENVS[i];
+    let mut f = EnvFilter::try_new(base).unwrap_or_else(|e| panic!("HARNESS: directive string {base:?} does not parse: {e}"));
+    for d in added {
+        let d: filter::Directive = d.parse().unwrap_or_else(|e| panic!("HARNESS: directive {d:?} does not parse: {e}"));
+        f = f.add_directive(d);
+    }
+    f
+}
+fn env_desc(i: usize) -> String {
+    let (base, added) = ENVS[i];
+    let mut s = format!("env({base:?})");
+    for d in added {
+        s.push_str(&format!(".add_directive({d:?})"));
+    }
+    s
+}
+/// every directive the filter was ever given (a replaced one still counts: the real code
+/// keeps the most verbose level ever added as its cached maximum)
+fn env_all(i: usize) -> String {
+    let (base, added) = ENVS[i];
+    let mut v = vec![base.to_string()];
+    v.extend(added.iter().map(|s| s.to_string()));
+    v.join(",")
 }
 
 /// what the F14 signature needs to know about a directive of one of the strings above
@@ -109,7 +159,7 @@ fn f14_sig(env: usize, u: UM) -> bool {
     if !u.span {
         return false;
     }
-    let dirs = parse_dirs(ENVS[env]);
+    let dirs = parse_dirs(&env_all(env));
     let dynamic: Vec<&DirInfo> = dirs.iter().filter(|d| d.span.is_some() || d.field.is_some()).collect();
     let max_dyn = dynamic.iter().map(|d| d.level).max().unwrap_or(0);
     dynamic.iter().any(|d| {
@@ -253,7 +303,7 @@ impl FE {
         match self {
             FE::Level(r) => format!("LevelFilter::{}", LEVEL_NAMES[*r]),
             FE::Targets(i) => targets_desc(*i),
-            FE::Env(i) => format!("env({:?})", ENVS[*i]),
+            FE::Env(i) => env_desc(*i),
             FE::Fn(i) => FN_DESC[*i].to_string(),
             FE::Dyn(i) => DYN_DESC[*i].to_string(),
             FE::NoneF => "None".into(),
@@ -278,11 +328,20 @@ impl FE {
     fn kinds(&self, out: &mut std::collections::BTreeSet<&'static str>) {
         out.insert(match self {
             FE::Level(_) => "LevelFilter",
-            FE::Targets(_) => "Targets",
+            FE::Targets(i) => {
+                if *i >= 5 {
+                    "Targets(key added twice)"
+                } else {
+                    "Targets"
+                }
+            }
             FE::Env(i) => {
-                if ENVS[*i].contains('=') && ENVS[*i].contains('{') && ENVS[*i].contains("f=") {
+                let e = env_all(*i);
+                if *i >= 12 {
+                    "EnvFilter(key added twice)"
+                } else if e.contains('{') && e.contains("f=") {
                     "EnvFilter(value)"
-                } else if ENVS[*i].contains('[') {
+                } else if e.contains('[') {
                     "EnvFilter(span)"
                 } else {
                     "EnvFilter(static)"
@@ -327,15 +386,27 @@ fn all_leaves() -> Vec<FE> {
     v.push(FE::NoneF);
     v
 }
-/// all leaves but seven near-duplicates (28 leaves)
+/// all leaves but seven near-duplicates and all but four of the same-key-twice leaves (32 leaves)
 fn wide_leaves() -> Vec<FE> {
     let drop = [FE::Level(2), FE::Level(4), FE::Targets(1), FE::Env(1), FE::Env(7), FE::Fn(0), FE::Dyn(4)];
-    all_leaves().into_iter().filter(|l| !drop.contains(l)).collect()
+    // of the "same key twice" leaves only four go into the depth-2 alphabet (all of them are in the depth-1 one)
+    let keep_dup = [FE::Targets(5), FE::Targets(7), FE::Env(16), FE::Env(18)];
+    all_leaves()
+        .into_iter()
+        .filter(|l| !drop.contains(l))
+        .filter(|l| match l {
+            FE::Targets(i) if *i >= 5 => keep_dup.contains(l),
+            FE::Env(i) if *i >= 12 => keep_dup.contains(l),
+            _ => true,
+        })
+        .collect()
 }
 fn core_leaves() -> Vec<FE> {
     vec![
         FE::Level(3), FE::Level(0), FE::Targets(2), FE::Env(2), FE::Env(6), FE::Env(9),
         FE::Fn(1), FE::Fn(3), FE::Dyn(0), FE::Dyn(3), FE::NoneF, FE::Env(10),
+        // same key added twice, the second time more verbose (by builder call)
+        FE::Targets(5), FE::Env(16),
     ]
 }
 fn mid_leaves() -> Vec<FE> {
@@ -361,7 +432,7 @@ impl GE {
         match self {
             GE::Level(r) => format!("global LevelFilter::{}", LEVEL_NAMES[*r]),
             GE::Targets(i) => format!("global {}", targets_desc(*i)),
-            GE::Env(i) => format!("global env({:?})", ENVS[*i]),
+            GE::Env(i) => format!("global {}", env_desc(*i)),
             GE::Fn(i) => format!("global {}", FN_DESC[*i]),
             GE::Dyn(i) => format!("global {}", DYN_DESC[*i]),
         }
